@@ -30,28 +30,37 @@ func genC18(g *G) {
 		g.gen = "c18-captight-" + v.kind
 		g.emit("!captight", v.kind, v.hex, v.aux)
 	}
-	taken := map[string]int{}
-	alt := map[string]int{}
+	// concurrent runs: perKind accepted values per kind, SPREAD over the pool (its first entries are the ordinary ones)
+	accepted := map[string][]c18Val{}
+	var kinds []string
 	for _, v := range vals {
-		if taken[v.kind] >= perKind {
-			continue
-		}
-		val := genBuild(v.kind, unhx(v.hex), atoi(v.aux))
-		if val == nil {
+		if genBuild(v.kind, unhx(v.hex), atoi(v.aux)) == nil {
 			continue // rejected inputs carry no shared value
 		}
-		taken[v.kind]++
-		g.gen = "c18-concurrent-" + v.kind
-		g.emit("!concurrent", v.kind, v.hex, v.aux, rounds)
-		// alternative constructor paths: a few values per kind
-		if alt[v.kind] < g.n(2, 10) {
-			alt[v.kind]++
-			for i, p := range c18Paths[v.kind] {
-				if i == 0 {
-					continue
+		if len(accepted[v.kind]) == 0 {
+			kinds = append(kinds, v.kind)
+		}
+		accepted[v.kind] = append(accepted[v.kind], v)
+	}
+	for _, kind := range kinds {
+		vs := accepted[kind]
+		n := perKind
+		if n > len(vs) {
+			n = len(vs)
+		}
+		for i := 0; i < n; i++ {
+			v := vs[i*len(vs)/n]
+			g.gen = "c18-concurrent-" + v.kind
+			g.emit("!concurrent", v.kind, v.hex, v.aux, rounds)
+			// alternative constructor paths: a few values per kind
+			if i < g.n(2, 10) {
+				for pi, p := range c18Paths[v.kind] {
+					if pi == 0 {
+						continue
+					}
+					g.gen = "c18-concurrent-" + v.kind + "-" + p.name
+					g.emit("!concurrent", v.kind+"/"+p.name, v.hex, v.aux, rounds)
 				}
-				g.gen = "c18-concurrent-" + v.kind + "-" + p.name
-				g.emit("!concurrent", v.kind+"/"+p.name, v.hex, v.aux, rounds)
 			}
 		}
 	}
@@ -163,6 +172,11 @@ func c18Pool(g *G) []c18Val {
 		add("cert", hx(encKeyCert(p[0], p[1], nil)), "0")
 	}
 	add("cert", "000000", "0")
+	// key certificates with type codes the size tables do not know (unassigned, experimental range) and with the
+	// rarely used ones (ML-KEM hybrids, Ed25519ph, RSA): the "unknown type" branches of the read-only lookups
+	for _, p := range [][2]int{{9, 0}, {65280, 4}, {7, 65280}, {7, 5}, {7, 6}, {7, 7}, {8, 4}, {4, 0}, {3, 0}} {
+		add("keycert", hx(encKeyCert(p[0], p[1], nil)), "0")
+	}
 	// mappings
 	for i := 0; i < g.n(30, 300); i++ {
 		b, _ := g.genMappingBytes()
